@@ -58,6 +58,8 @@ func fioKind(err error) string {
 			return "NEGOFF"
 		case avfs.ErrFileClosing:
 			return "CLOSED"
+		case avfs.ErrWriteAtInAppendMode:
+			return "APPENDWRITEAT"
 		}
 		return "OTHER"
 	default:
